@@ -13,7 +13,7 @@ META = dict(
     watchdog_s={"quick": 1500, "thorough": 5400},
     evaluations_counter="cases",
     min={"judged_steps": 5000, "steps_with_quantized_result": 500, "compared:move": 500, "compared:rescale": 100,
-         "compared:requant": 50, "compared:contraction": 200, "compared:pass": 300, "documented_refusals": 10},
+         "compared:requant": 50, "compared:contraction": 200, "compared:pass": 300},
     anchors=["tensor/qtensor.py:QTensor.__torch_function__", "tensor/qbytes.py:QBytesTensor.__torch_dispatch__",
              "tensor/qbits/qbits.py:QBitsTensor.__torch_dispatch__", "tensor/qtensor.py:qfallback",
              "tensor/qtensor_func.py:QTensorLinear.forward", "tensor/qtensor_func.py:linear",
